@@ -135,7 +135,43 @@ def gen_combined(rng):
             "cap": rng.choice([2 ** 15, 3, 1]), "is3mr": rng.random() < 0.15}
 
 
-def gen_batch(rng, force_noise=False):
+def estimate_columns(c):
+    """upper estimate of the number of columns compute_batch_ranking builds for a batch case (keeps cases small)"""
+    from math import comb
+    names = c["names"]
+    cols = {nm: [row[j] for row in c["rows"]] for j, nm in enumerate(names)}
+    n = len(names)
+    if c["transformers"] != "none":
+        n += 10 * len(c["numeric"])
+    if c["explode"] != "False":
+        for f in c["explode"].split(";"):
+            toks = set()
+            for v in cols.get(f, []):
+                toks |= set(v.replace(",", "-").split("-"))
+            n += len(toks)
+    if c["mapping"] != "False":
+        for op in c["mapping"].split(";"):
+            if "<->" in op:
+                a, b = op.split("<->")
+                n += len(set(cols.get(a, []))) * len(set(cols.get(b, [])))
+            else:
+                a, b = op.split("->")
+                n += len(set(cols.get(b, [])))
+    if c["order"] > 1:
+        n += comb(n - 1, c["order"])
+        if "3mr" in c.get("heuristic", ""):
+            n += comb(n - 1, 2)
+    return n
+
+
+def gen_batch(rng, force_noise=False, budget=130):
+    while True:
+        c = gen_batch_raw(rng, force_noise)
+        if estimate_columns(c) <= budget:
+            return c
+
+
+def gen_batch_raw(rng, force_noise=False):
     heavy = rng.random() < 0.35            # interactions and/or 3mr: keep the rest small
     nf = rng.randint(2, 3) if heavy else rng.randint(2, 4)
     kinds = [rng.choice(["plain", "mv", "num", "plain"]) for _ in range(nf)]
@@ -438,8 +474,8 @@ def check(run, replay):
     else:
         cases = load_corpus("C11") + fixed_cases()
         q = run.tier == "quick"
-        plan = [(gen_multivalue, 40 if q else 400), (gen_sub, 40 if q else 400), (gen_transform, 10 if q else 80),
-                (gen_noise, 12 if q else 100), (gen_combined, 10 if q else 80), (gen_batch, 36 if q else 300)]
+        plan = [(gen_multivalue, 60 if q else 1000), (gen_sub, 60 if q else 1000), (gen_transform, 12 if q else 150),
+                (gen_noise, 15 if q else 200), (gen_combined, 12 if q else 150), (gen_batch, 50 if q else 800)]
         for g, n in plan:
             for _ in range(n):
                 cases.append(g(run.rng))
